@@ -127,6 +127,8 @@ class Factory:
                 url = rng.choice(URLS)
                 body = rng.choice(BODIES)
                 headers = {"X-Req": rng.choice(HEADER_VALUES), "Content-Type": rng.choice(["application/json", "text/plain; charset=utf-8"])}
+                if rng.random() < 0.4:
+                    headers["Cookie"] = rng.choice(["sid=abc123", "a=1; b=two", "t=x-y_z; u=0"])
                 request = self.requests.Request(op_label.split()[0], "http://127.0.0.1:1/x", headers=headers, data=body).prepare()
                 request.url = url  # keep the hostile URL verbatim, as the engine records what was sent
                 exchange = {"id": case.id, "method": request.method, "url": url, "request_headers": dict(request.headers), "request_body": request.body if isinstance(request.body, (bytes, type(None))) else request.body.encode()}
@@ -138,7 +140,9 @@ class Factory:
                     content = rng.choice(BODIES) or b""
                     encoding = rng.choice([None, "utf-8", "latin-1"])
                     resp_status = rng.choice([200, 201, 404, 500, 503])
-                    rheaders = {"content-type": ["application/json"], "x-resp": [rng.choice(HEADER_VALUES)], "set-cookie": ["a=1; Path=/"]}
+                    rheaders = {"content-type": ["application/json"], "x-resp": [rng.choice(HEADER_VALUES)], rng.choice(["set-cookie", "Set-Cookie"]): ["a=1; Path=/"]}
+                    if rng.random() < 0.3:
+                        rheaders["x-many"] = ["one", "two"]  # a header sent on two lines
                     response = self.Response(status_code=resp_status, headers=rheaders, content=content, request=request, elapsed=0.12, verify=False, message=rng.choice(["OK", "Not 'quite'", 'Say "x"']), encoding=encoding)
                     recorder.record_response(case_id=case.id, response=response)
                     exchange["response"] = {"status": resp_status, "headers": rheaders, "content": content, "encoding": encoding}
@@ -265,7 +269,8 @@ def check_vcr(path, expected, preserve_bytes, sanitize=False):
             resp = item.get("response") or {}
             if str((resp.get("status") or {}).get("code")) != str(ex["response"]["status"]):
                 viols.append(("C16/vcr-status-differs", f"{resp.get('status')} vs {ex['response']['status']}"))
-            if {k: v for k, v in (resp.get("headers") or {}).items()} != ex["response"]["headers"] and not sanitize:
+            # (header names are case-insensitive: the cassette may spell them in lower case)
+            if {k.lower(): v for k, v in (resp.get("headers") or {}).items()} != {k.lower(): v for k, v in ex["response"]["headers"].items()} and not sanitize:
                 viols.append(("C16/vcr-response-headers-differ", f"{resp.get('headers')} vs {ex['response']['headers']}"[:300]))
             content = ex["response"]["content"]
             rb = resp.get("body") or {}
@@ -303,6 +308,16 @@ def check_har(path, expected, preserve_bytes, sanitize=False):
         got_headers = {h["name"]: h["value"] for h in req["headers"]}
         if got_headers != ex["request_headers"] and not sanitize:
             viols.append(("C16/har-request-headers-differ", f"{got_headers} vs {ex['request_headers']}"[:300]))
+        if not sanitize and "Cookie" in ex["request_headers"]:
+            # the cookies of the request, as its Cookie header spells them
+            want = [tuple(part.strip().split("=", 1)) for part in ex["request_headers"]["Cookie"].split(";")]
+            got = [(c.get("name"), c.get("value")) for c in req.get("cookies") or []]
+            if got != want:
+                viols.append(("C16/har-request-cookies-differ", f"{got} vs Cookie: {ex['request_headers']['Cookie']!r}"))
+        if not sanitize and ex["response"] is not None and any(k.lower() == "set-cookie" for k in ex["response"]["headers"]):
+            got = [(c.get("name"), c.get("value")) for c in entry["response"].get("cookies") or []]
+            if got != [("a", "1")]:
+                viols.append(("C16/har-response-cookies-differ", f"{got} vs Set-Cookie: a=1; Path=/"))
         body = ex["request_body"]
         if body is not None:
             text = (req.get("postData") or {}).get("text")
@@ -315,6 +330,14 @@ def check_har(path, expected, preserve_bytes, sanitize=False):
             resp = entry["response"]
             if resp["status"] != ex["response"]["status"]:
                 viols.append(("C16/har-status-differs", f"{resp['status']} vs {ex['response']['status']}"))
+            if not sanitize:
+                got_pairs = sorted((h["name"].lower(), h["value"]) for h in resp.get("headers") or [])
+                want_pairs = sorted((k.lower(), v) for k, values in ex["response"]["headers"].items() for v in values)
+                if got_pairs != want_pairs:
+                    viols.append(("C16/har-response-headers-differ", f"{got_pairs} vs {want_pairs}"[:300]))
+                want_type = next((v[0] for k, v in ex["response"]["headers"].items() if k.lower() == "content-type"), "")
+                if (resp.get("content") or {}).get("mimeType", "") != want_type:
+                    viols.append(("C16/har-response-mime-type-differs", f"{(resp.get('content') or {}).get('mimeType')!r} vs {want_type!r}"))
             content = ex["response"]["content"]
             text = (resp.get("content") or {}).get("text")
             if preserve_bytes:
